@@ -4,6 +4,9 @@
 
 package inproc
 
+//@ struct dialer
+//@   immutable: addr selfProto peerProto
+//@
 //@ struct inproc
 //@   immutable: closeq readyq selfProto peerProto addr
 //@   never_closed: rq wq
